@@ -7,6 +7,7 @@ import CwPlus.Lemmas.Cw3FlexNodup
 import CwPlus.Lemmas.Cw4StakeNodup
 import CwPlus.Lemmas.Ics20Nodup
 import CwPlus.Lemmas.Cw3StatusTotal
+import CwPlus.Props.C06Flex
 /-!
 # C20 — the 13 listings outside cw20-base
 
@@ -674,6 +675,756 @@ theorem all_listings_page_len (sk : Cw1Subkeys.State) (fx : Cw3Fixed.State) (fl 
    (group_listMembers_page_len g cg limit).1, (stake_listMembers_page_len st c4 limit).1,
    (ics20_listAllowed_page_len ic ci limit).1, effLimit_le_max limit, effLimit_none⟩
 
+/-! ## cw3-flex: `TallyFits` and `StatusTotal` from the snapshot weights (no tally hypothesis)
+
+`flex_status_total` needs `TallyFits` (the four counters of every stored proposal together fit `u64`).  Here it is
+*derived* for worlds reached by a history at non-decreasing block heights, on top of a group whose total is the sum
+of its member weights (cw4-group's own invariant, C09): every voter's ballot carries the voter's snapshot weight at
+the proposal's start height (C06 `ballots_are_snapshot`), the voters of one proposal are distinct, and the snapshot
+weights of distinct addresses at one height add up to at most the group total of that height, which is a `u64`.
+The only ballot that is not a snapshot weight is the proposer's own (defect D3: `Propose` reads the *current*
+weight), so the theorems carry, per proposal, the hypothesis that the proposer's recorded ballot does not exceed
+the proposer's snapshot weight at the start height — exactly what C06's `proposer_and_total_are_snapshot_partial`
+establishes under its guard "no group write earlier in the proposal's own block" and what
+`later_changes_irrelevant` preserves.  Without it the statement is false of the code (D3 lets the proposer's
+same-block weight exceed its snapshot weight, so the counters can exceed `u64` together). -/
+
+open CwPlus.Snapshot in
+/-- The lookups of distinct keys in a map without repeated keys add up to at most the sum of the map. -/
+theorem sum_lookups_le_sum : ∀ (l : List Addr) (m : AMap Addr Nat), l.Nodup → AMap.NodupKeys m →
+    (l.map (fun a => (m.get? a).getD 0)).sum ≤ AMap.sum m
+  | [], _, _, _ => by simp
+  | a :: l', m, hl, hm => by
+    have hl' := List.nodup_cons.mp hl
+    have ih := sum_lookups_le_sum l' (m.erase a) hl'.2 (AMap.nodup_erase hm)
+    have hs := AMap.sum_erase m a hm
+    have hc : l'.map (fun x => ((m.erase a).get? x).getD 0) = l'.map (fun x => (m.get? x).getD 0) := by
+      apply List.map_congr_left
+      intro x hx
+      have hne : a ≠ x := fun e => hl'.1 (e ▸ hx)
+      rw [AMap.get?_erase_ne _ _ _ hne]
+    rw [hc] at ih
+    simp only [List.map_cons, List.sum_cons]
+    omega
+
+open CwPlus.Snapshot in
+/-- At every height, the snapshot weights of any distinct addresses together fit `u64`. -/
+def SnapSum (m : SnapMap Addr Nat) : Prop :=
+  ∀ (h : Nat) (l : List Addr), l.Nodup → (l.map (fun a => (m.atHeight a h).getD 0)).sum ≤ U64_MAX
+
+open CwPlus.Snapshot in
+theorem snapSum_empty : SnapSum (SnapMap.empty : SnapMap Addr Nat) := by
+  intro h l _
+  have : l.map (fun a => ((SnapMap.empty : SnapMap Addr Nat).atHeight a h).getD 0) = l.map (fun _ => 0) := by
+    apply List.map_congr_left; intro a _; rfl
+  have h0 : ∀ l : List Addr, (l.map (fun _ => 0)).sum = 0 := by
+    intro l; induction l with
+    | nil => rfl
+    | cons _ _ ih => simp [ih]
+  rw [this, h0]; exact Nat.zero_le _
+
+open CwPlus.Snapshot in
+/-- One block of writes at a height not below the changelog keeps `SnapSum`, provided the resulting current map
+has distinct keys and a sum that fits `u64`: earlier-or-equal heights see the old answers, later heights the new
+current values. -/
+theorem snapSum_sameBlock {m m' : SnapMap Addr Nat} {hw : Nat} (hs : SnapMap.SameBlock m m' hw) (hle : m.LogLe hw)
+    (hsum : SnapSum m) (hn : AMap.NodupKeys m'.cur) (hfit : AMap.sum m'.cur ≤ U64_MAX) : SnapSum m' := by
+  intro h l hl
+  by_cases hh : h ≤ hw
+  · have : l.map (fun a => (m'.atHeight a h).getD 0) = l.map (fun a => (m.atHeight a h).getD 0) := by
+      apply List.map_congr_left; intro a _; rw [hs.atHeight_le hle a hh]
+    rw [this]; exact hsum h l hl
+  · have hle' : m'.LogLe hw := hs.logLe hle (Nat.le_refl _)
+    have : l.map (fun a => (m'.atHeight a h).getD 0) = l.map (fun a => (m'.cur.get? a).getD 0) := by
+      apply List.map_congr_left; intro a _
+      rw [SnapMap.atHeight_of_logLe hle' (by omega) a]; rfl
+    rw [this]
+    exact Nat.le_trans (sum_lookups_le_sum l m'.cur hl hn) hfit
+
+/-- A successful cw4-group call at a height not below the changelog keeps `SnapSum` (uses the group's own
+invariant C09: total = Σ member weights, fits `u64`). -/
+theorem snapSum_execute {g g' : Cw4Group.State} {hw : Nat} {snd : Addr} {m : Cw4Group.Msg} {outs : List Cw4Group.Out}
+    (hg : Cw4Group.execute g hw snd m = .ok (g', outs)) (hi : C09.Inv g) (hle : g.members.LogLe hw)
+    (hs : SnapSum g.members) : SnapSum g'.members := by
+  obtain ⟨_, hn, hfit⟩ := C09.execute_inv hi hg
+  exact snapSum_sameBlock (C09.execute_sameBlock hg).1 hle hs hn hfit
+
+/-- The hypotheses on the group are satisfiable: a freshly instantiated group has `SnapSum`, its own invariant,
+and changelogs bounded by its instantiation height. -/
+theorem group_instantiate_snapSum {msg : Cw4Group.InstMsg} {h0 : Nat} {g0 : Cw4Group.State}
+    (hi : Cw4Group.instantiate msg h0 = .ok g0) :
+    C09.Inv g0 ∧ SnapSum g0.members ∧ g0.members.LogLe h0 ∧ g0.total.LogLe h0 := by
+  obtain ⟨hm, ht, _, _⟩ := C09.instantiate_snapshots hi
+  have hinv := C09.instantiate_inv hi
+  exact ⟨hinv, snapSum_sameBlock (C09.instantiate_sameBlock hi).1 (Snapshot.SnapMap.logLe_empty h0) snapSum_empty
+    hinv.2.1 hinv.2.2, hm, ht⟩
+
+/-- … and so has every group state reached from it by calls at non-decreasing heights `≥ h0`, with changelogs
+bounded by the height of the last call (or `h0`). -/
+theorem group_run_snapSum (ops : List Cw4Group.Op) : ∀ (g : Cw4Group.State) (B : Nat), C09.Inv g →
+    SnapSum g.members → g.members.LogLe B → g.total.LogLe B → (∀ op ∈ ops, B ≤ op.height) → Cw4Group.Ordered ops →
+    ∃ B', C09.Inv (Cw4Group.run g ops) ∧ SnapSum (Cw4Group.run g ops).members ∧
+      (Cw4Group.run g ops).members.LogLe B' ∧ (Cw4Group.run g ops).total.LogLe B' ∧ B ≤ B' ∧
+      ∀ op ∈ ops, op.height ≤ B' := by
+  induction ops with
+  | nil => intro g B hi hs hm ht _ _; exact ⟨B, hi, hs, hm, ht, Nat.le_refl _, by simp⟩
+  | cons op rest ih =>
+    intro g B hi hs hm ht hge hord
+    have hp := List.pairwise_cons.mp hord
+    have hB := hge op (by simp)
+    have hsb := C09.stepOp_sameBlock g op
+    have hi' := C09.stepOp_inv op hi
+    have hs' : SnapSum (Cw4Group.stepOp g op).members :=
+      snapSum_sameBlock hsb.1 (hm.mono hB) hs hi'.2.1 hi'.2.2
+    obtain ⟨B', h1, h2, h3, h4, h5, h6⟩ := ih (Cw4Group.stepOp g op) op.height hi' hs'
+      (hsb.1.logLe (hm.mono hB) (Nat.le_refl _)) (hsb.2.logLe (ht.mono hB) (Nat.le_refl _))
+      (fun o ho => hp.1 o ho) hp.2
+    refine ⟨B', h1, h2, h3, h4, Nat.le_trans hB h5, ?_⟩
+    intro o ho
+    rcases List.mem_cons.mp ho with rfl | ho
+    · exact h5
+    · exact h6 o ho
+
+/-- The world invariant: C06's `SnapInv` (ballots of non-proposers are snapshot weights, changelogs bounded by
+`H`) together with the group's own invariant and `SnapSum`. -/
+structure TallyInv (w : Cw3Flex.World) (H : Nat) : Prop where
+  snap : C06Flex.SnapInv w H
+  ginv : C09.Inv w.group
+  gsum : SnapSum w.group.members
+
+theorem tallyInv_step (ext : Cw3Flex.Ext) (fuel : Nat) {w : Cw3Flex.World} {H : Nat} (op : Cw3Flex.Op)
+    (hq : TallyInv w H) (hH : H ≤ op.blk.height) : TallyInv (Cw3Flex.step ext fuel w op) op.blk.height := by
+  have hq' : TallyInv w op.blk.height := ⟨hq.snap.mono hH, hq.ginv, hq.gsum⟩
+  unfold Cw3Flex.step
+  split
+  · rename_i w' htx
+    exact Cw3Flex.tx_inv ext (fun w => TallyInv w op.blk.height) op.blk
+      (fun w snd funds em s' out hq he => ⟨C06Flex.snap_flex hq.snap he, hq.ginv, hq.gsum⟩)
+      (fun w snd m g' outs hq hg => ⟨C06Flex.snap_group hq.snap hg, C09.execute_inv hq.ginv hg,
+        snapSum_execute hg hq.ginv hq.snap.membersLe hq.gsum⟩)
+      (fun w b hq => ⟨⟨hq.snap.inv, hq.snap.membersLe, hq.snap.totalLe, hq.snap.startLe, hq.snap.ballot⟩, hq.ginv, hq.gsum⟩)
+      (fun w t hq => ⟨⟨hq.snap.inv, hq.snap.membersLe, hq.snap.totalLe, hq.snap.startLe, hq.snap.ballot⟩, hq.ginv, hq.gsum⟩)
+      hq' htx
+  · exact hq'
+
+theorem tallyInv_run (ext : Cw3Flex.Ext) (fuel : Nat) (ops : List Cw3Flex.Op) : ∀ (w : Cw3Flex.World) (H : Nat),
+    TallyInv w H → (∀ op ∈ ops, H ≤ op.blk.height) → C06Flex.Ordered ops →
+    ∃ H', TallyInv (Cw3Flex.run ext fuel w ops) H' := by
+  induction ops with
+  | nil => intro w H hq _ _; exact ⟨H, hq⟩
+  | cons op rest ih =>
+    intro w H hq hge hord
+    have hp := List.pairwise_cons.mp hord
+    exact ih _ op.blk.height (tallyInv_step ext fuel op hq (hge op (by simp))) (fun o ho => hp.1 o ho) hp.2
+
+/-- The ballots of a map weigh together at most what a bound `f` on each voter's ballot adds up to over the voters. -/
+theorem weightSum_le_bound (f : Addr → Nat) : ∀ (bs : AMap Addr Cw3Core.Ballot),
+    (∀ a b, (a, b) ∈ bs → b.weight ≤ f a) → Cw3Core.weightSum bs ≤ ((AMap.keys bs).map f).sum
+  | [], _ => by simp [AMap.keys]
+  | (a, b) :: rest, h => by
+    have h1 := h a b (by simp)
+    have ih := weightSum_le_bound f rest (fun a' b' hm => h a' b' (List.mem_cons_of_mem _ hm))
+    simp only [Cw3Core.weightSum, AMap.keys, List.map_cons, List.sum_cons] at ih ⊢
+    omega
+
+/-- In a world with `TallyInv`, a stored proposal whose proposer's recorded ballot does not exceed the proposer's
+snapshot weight at the start height has a tally that fits `u64`. -/
+theorem tallyInv_fits {w : Cw3Flex.World} {H : Nat} (hq : TallyInv w H) {id : Nat} {p : Cw3Core.Proposal}
+    (hp : w.flex.core.proposals.get? id = some p)
+    (hprop : ∀ b, (Cw3Core.ballotsOf w.flex.core id).get? p.proposer = some b →
+      b.weight ≤ (Cw3Flex.memberAt w.group p.proposer p.startHeight).getD 0) : p.Fits := by
+  have hwf := hq.snap.inv.wf
+  have hn := hwf.nodup id
+  have hb : Cw3Core.weightSum (Cw3Core.ballotsOf w.flex.core id)
+      ≤ ((AMap.keys (Cw3Core.ballotsOf w.flex.core id)).map
+          (fun a => (w.group.members.atHeight a p.startHeight).getD 0)).sum := by
+    apply weightSum_le_bound
+    intro a b hm
+    have hg := AMap.get?_of_mem_nodup hn hm
+    by_cases e : a = p.proposer
+    · subst e; exact hprop b hg
+    · have := (hq.snap.ballot id p a b hp hg e).1
+      simp only [Cw3Flex.memberAt] at this
+      rw [this]; exact Nat.le_refl _
+  have hs := hq.gsum p.startHeight (AMap.keys (Cw3Core.ballotsOf w.flex.core id)) hn
+  have ht := hwf.tally id p hp
+  have he := Cw3Core.weightSum_eq (Cw3Core.ballotsOf w.flex.core id)
+  unfold Cw3Core.Proposal.Fits
+  rw [ht]
+  simp only [Cw3Core.tallyOf]
+  omega
+
+/-- **`TallyFits` derived (partial: per proposal, under the proposer-snapshot guard).**  Instantiate the multisig on
+a group with its own invariant, `SnapSum` and changelogs bounded by `H0` (e.g. any group reached from an accepted
+`Cw4Group.instantiate` by calls at non-decreasing heights: `group_instantiate_snapSum`, `group_run_snapSum`), run any
+history of transactions (multisig, group, token; nested dispatches included) at non-decreasing block heights `≥ H0`.
+Then every stored proposal whose proposer's recorded ballot is at most the proposer's snapshot weight at the start
+height — in particular every proposal created in a block without an earlier group write
+(`C06Flex.proposer_and_total_are_snapshot_partial`) — has a tally that fits `u64`, and hence a status at every block.
+The missing part (proposals created right after a same-block group update, D3) is false of the code. -/
+theorem flex_tally_fits_partial {ext : Cw3Flex.Ext} {fuel : Nat} {m : Cw3Flex.InstMsg} {s : Cw3Flex.State}
+    {g : Cw4Group.State} {t : Cw20.State} {bank : AMap (Addr × String) Nat} {self ga ta : Addr} {H0 : Nat}
+    (hi : Cw3Flex.instantiate m (some g) = .ok s) (hgi : C09.Inv g) (hgs : SnapSum g.members)
+    (hgm : g.members.LogLe H0) (hgt : g.total.LogLe H0)
+    (ops : List Cw3Flex.Op) (hge : ∀ op ∈ ops, H0 ≤ op.blk.height) (hord : C06Flex.Ordered ops)
+    {id : Nat} {p : Cw3Core.Proposal} :
+    let w := Cw3Flex.run ext fuel (Cw3Flex.World.init s g t bank self ga ta H0) ops
+    w.flex.core.proposals.get? id = some p →
+    (∀ b, (Cw3Core.ballotsOf w.flex.core id).get? p.proposer = some b →
+      b.weight ≤ (Cw3Flex.memberAt w.group p.proposer p.startHeight).getD 0) →
+    p.Fits ∧ ∀ blk, ∃ st, p.currentStatus blk = .ok st := by
+  intro w hp hprop
+  have hcore : s.core = Cw3Core.Core.empty := by
+    simp only [Cw3Flex.instantiate, Res.bind_ok] at hi
+    obtain ⟨_, _, _, _, _, _, _, _, hi⟩ := hi
+    simp at hi; subst hi; rfl
+  have h0 : TallyInv (Cw3Flex.World.init s g t bank self ga ta H0) H0 := by
+    refine ⟨⟨Cw3Flex.instantiate_inv hi, hgm, hgt, ?_, ?_⟩, hgi, hgs⟩
+    · intro id p hp; simp [Cw3Flex.World.init, hcore, Cw3Core.Core.empty] at hp
+    · intro id p a b hp; simp [Cw3Flex.World.init, hcore, Cw3Core.Core.empty] at hp
+  obtain ⟨H', hq⟩ := tallyInv_run ext fuel ops _ H0 h0 hge hord
+  have hfit := tallyInv_fits hq hp hprop
+  have hr : Cw3Flex.Reachable ext fuel w := ⟨m, s, g, t, bank, self, ga, ta, H0, ops, hi, rfl⟩
+  exact ⟨hfit, Cw3Flex.reachable_statusInv hr id p hp hfit⟩
+
+/-- **`StatusTotal` for the flex proposal listings without a tally hypothesis (partial).**  In the worlds of
+`flex_tally_fits_partial`, if *every* stored proposal satisfies the proposer-snapshot guard, every stored proposal
+has a status at every block, so `ListProposals` / `ReverseProposals` never fail and are complete from the start
+(`flex_listProposals_complete`, `flex_reverseProposals_complete`) and from every cursor (`…_complete_after`). -/
+theorem flex_status_total_partial {ext : Cw3Flex.Ext} {fuel : Nat} {m : Cw3Flex.InstMsg} {s : Cw3Flex.State}
+    {g : Cw4Group.State} {t : Cw20.State} {bank : AMap (Addr × String) Nat} {self ga ta : Addr} {H0 : Nat}
+    (hi : Cw3Flex.instantiate m (some g) = .ok s) (hgi : C09.Inv g) (hgs : SnapSum g.members)
+    (hgm : g.members.LogLe H0) (hgt : g.total.LogLe H0)
+    (ops : List Cw3Flex.Op) (hge : ∀ op ∈ ops, H0 ≤ op.blk.height) (hord : C06Flex.Ordered ops)
+    (hguard : ∀ id p b,
+      (Cw3Flex.run ext fuel (Cw3Flex.World.init s g t bank self ga ta H0) ops).flex.core.proposals.get? id = some p →
+      (Cw3Core.ballotsOf (Cw3Flex.run ext fuel (Cw3Flex.World.init s g t bank self ga ta H0) ops).flex.core id).get?
+        p.proposer = some b →
+      b.weight ≤ (Cw3Flex.memberAt (Cw3Flex.run ext fuel (Cw3Flex.World.init s g t bank self ga ta H0) ops).group
+        p.proposer p.startHeight).getD 0)
+    (blk : Block) (cur limit : Option Nat) :
+    let w := Cw3Flex.run ext fuel (Cw3Flex.World.init s g t bank self ga ta H0) ops
+    TallyFits w.flex.core ∧ StatusTotal w.flex.core blk ∧
+    (Cw3Flex.listProposals w.flex blk cur limit).isOk = true ∧ (Cw3Flex.reverseProposals w.flex blk cur limit).isOk = true := by
+  intro w
+  have hfits : TallyFits w.flex.core := fun id p hp =>
+    (flex_tally_fits_partial hi hgi hgs hgm hgt ops hge hord hp (fun b hb => hguard id p b hp hb)).1
+  have hr : Cw3Flex.Reachable ext fuel w := ⟨m, s, g, t, bank, self, ga, ta, H0, ops, hi, rfl⟩
+  exact ⟨hfits, flex_status_total hr hfits blk, flex_proposal_listings_total hr hfits blk cur limit⟩
+
+/-! ### The guard stated on the history: no group write earlier in the proposal's own block
+
+The committed ghost log of a world (`World.log`) records every handler call of every committed transaction in
+order, nested dispatches included: `.proposed id snd` for a successful `Propose`, `.groupWrite h` for a successful
+group call in block `h` (the instantiation of the group counts as a write in block `H0`).  `GoodFor log id h` says:
+before the `Propose` that created proposal `id`, the log has no group write of block `h`.  For `h` the proposal's
+start height this is the guard of C06 (`proposer_and_total_are_snapshot_partial`).  Below it is shown to imply, over
+whole histories, that the proposer's ballot is the proposer's snapshot weight — and hence, with the previous section,
+`TallyFits` and `StatusTotal`. -/
+
+/-- In `log`, no group write of block `h` precedes the `Propose` that created proposal `id`. -/
+def GoodFor (log : List Cw3Flex.Event) (id h : Nat) : Prop :=
+  ∀ pre post snd, log = pre ++ Cw3Flex.Event.proposed id snd :: post → Cw3Flex.Event.groupWrite h ∉ pre
+
+theorem goodFor_append {log : List Cw3Flex.Event} {ev : Cw3Flex.Event} {id h : Nat}
+    (hg : GoodFor (log ++ [ev]) id h) : GoodFor log id h := by
+  intro pre post snd hl
+  exact hg pre (post ++ [ev]) snd (by rw [hl]; simp)
+
+theorem goodFor_new {log : List Cw3Flex.Event} {id h : Nat} {snd : Addr}
+    (hg : GoodFor (log ++ [Cw3Flex.Event.proposed id snd]) id h) : Cw3Flex.Event.groupWrite h ∉ log :=
+  hg log [] snd rfl
+
+open CwPlus.Snapshot in
+/-- Every changelog height of every key satisfies `P`. -/
+def LogAll (m : SnapMap Addr Nat) (P : Nat → Prop) : Prop := ∀ k e, e ∈ (m.cell k).log → P e.1
+
+open CwPlus.Snapshot in
+theorem logAll_mono {m : SnapMap Addr Nat} {P Q : Nat → Prop} (h : ∀ x, P x → Q x) (hm : LogAll m P) : LogAll m Q :=
+  fun k e he => h _ (hm k e he)
+
+open CwPlus.Snapshot in
+/-- One block of writes at height `hw` adds only changelog entries of height `hw`. -/
+theorem logAll_sameBlock {m m' : SnapMap Addr Nat} {hw : Nat} {P : Nat → Prop} (hs : SnapMap.SameBlock m m' hw)
+    (hm : LogAll m P) (hp : P hw) : LogAll m' P := by
+  obtain ⟨ws, hws, rfl⟩ := hs
+  induction ws generalizing m with
+  | nil => exact hm
+  | cons w ws ih =>
+    rw [SnapMap.writes_cons]
+    refine ih ?_ (fun w' hw' => hws w' (List.mem_cons_of_mem _ hw'))
+    intro k e he
+    rw [SnapMap.cell_write] at he
+    split at he
+    · simp only [Cell.write] at he
+      split at he
+      · exact hm k e he
+      · rcases List.mem_cons.mp he with rfl | hmem
+        · show P w.2.1
+          rw [hws w (by simp)]; exact hp
+        · exact hm k e hmem
+    · exact hm k e he
+
+/-- The world invariant for the history-level guard: `TallyInv`; every group changelog height is below `H0` or
+recorded as a group write in the ghost log; and the proposer's ballot of every proposal whose `Propose` was not
+preceded by a group write of its own block is the proposer's snapshot weight at the start height. -/
+structure GuardInv (H0 : Nat) (w : Cw3Flex.World) (H : Nat) : Prop where
+  tally : TallyInv w H
+  h0le : H0 ≤ H
+  link : LogAll w.group.members (fun x => x < H0 ∨ Cw3Flex.Event.groupWrite x ∈ w.log)
+  prop : ∀ id p b, w.flex.core.proposals.get? id = some p →
+    (Cw3Core.ballotsOf w.flex.core id).get? p.proposer = some b → GoodFor w.log id p.startHeight →
+    Cw3Flex.memberAt w.group p.proposer p.startHeight = some b.weight
+
+open CwPlus.Cw3Core in
+/-- A flex handler call in block `H` keeps `GuardInv · H`. -/
+theorem guard_flex {H0 : Nat} {w : Cw3Flex.World} {blk : Block} {snd : Addr} {funds : List Cw3Flex.Coin}
+    {em : Cw3Flex.ExecMsg} {s' : Cw3Flex.State} {out : List Cw3Flex.Out}
+    (hq : GuardInv H0 w blk.height) (he : Cw3Flex.execute w.flex w.group w.self blk snd funds em = .ok (s', out)) :
+    GuardInv H0 { w with flex := s', log := w.log ++ [Cw3Flex.eventOf w.flex snd em] } blk.height := by
+  refine ⟨⟨C06Flex.snap_flex hq.tally.snap he, hq.tally.ginv, hq.tally.gsum⟩, hq.h0le,
+    logAll_mono (fun x hx => hx.imp id (fun h => List.mem_append_left _ h)) hq.link, ?_⟩
+  have hinv := hq.tally.snap.inv
+  obtain ⟨_, hc⟩ := Cw3Flex.execute_cases he
+  rcases hc with ⟨t, d, msgs, latest, w0, total, id0, hm, hw0, _, _, _, hp⟩ | ⟨id0, v, hm, _, hv⟩ |
+    ⟨id0, p0, msgs, hm, _, hex, _⟩ | ⟨id0, p0, hm, _, hcl, _⟩ | ⟨hm, _, rfl, _⟩
+  · obtain ⟨expires, st, _, _, hid, _, hc'⟩ := propose_spec hp
+    have hnone : w.flex.core.proposals.get? id0 = none := hinv.wf.fresh (by omega)
+    have hb0 : ballotsOf w.flex.core id0 = [] := hinv.wf.noBallots id0 hnone
+    intro id p b hpp hb hgood
+    simp only [hc', AMap.get?_set] at hpp
+    simp only [hc', ballotsOf_set] at hb
+    by_cases e : id0 = id
+    · simp only [e, if_true, Option.some.injEq] at hpp hb
+      rw [← e, hb0] at hb
+      subst hpp
+      simp only [AMap.set, AMap.get?, if_true, Option.some.injEq] at hb
+      subst hb
+      -- the new proposal: proposer = snd, start height = this block, ballot weight = current weight
+      subst hm
+      have hgw : Cw3Flex.Event.groupWrite blk.height ∉ w.log := by
+        have hid' : id0 = w.flex.core.count + 1 := hid
+        have : GoodFor (w.log ++ [Cw3Flex.Event.proposed id snd]) id blk.height := by
+          have hev : Cw3Flex.eventOf w.flex snd (.propose t d msgs latest) = Cw3Flex.Event.proposed id snd := by
+            simp [Cw3Flex.eventOf, ← e, hid']
+          rw [← hev]; exact hgood
+        exact goodFor_new this
+      show w.group.members.atHeight snd blk.height = some w0
+      have hlt : ∀ e' ∈ (w.group.members.cell snd).log, e'.1 < blk.height := by
+        intro e' he'
+        have h1 := hq.tally.snap.membersLe snd e' he'
+        rcases hq.link snd e' he' with h2 | h2
+        · have := hq.h0le; omega
+        · have hne : e'.1 ≠ blk.height := fun heq => hgw (heq ▸ h2)
+          omega
+      rw [Snapshot.SnapMap.atHeight_eq, Snapshot.Cell.atHeight_of_logLt hlt]
+      exact hw0
+    · simp only [e, if_false] at hpp hb
+      exact hq.prop id p b hpp hb (goodFor_append hgood)
+  · obtain ⟨p1, w1, votes, st, hp1, _, _, hw, hw1, hnb, _, _, hc'⟩ := vote_spec hv
+    intro id p b hpp hb hgood
+    simp only [hc', AMap.get?_set] at hpp
+    simp only [hc', ballotsOf_set] at hb
+    by_cases e : id0 = id
+    · simp only [e, if_true, Option.some.injEq] at hpp hb
+      subst hpp; subst e
+      rw [AMap.get?_set] at hb
+      by_cases ea : snd = p1.proposer
+      · simp only [ea, if_true, Option.some.injEq] at hb; subst hb; rw [← ea]; exact hw
+      · simp only [ea, if_false] at hb; exact hq.prop id0 p1 b hp1 hb (goodFor_append hgood)
+    · simp only [e, if_false] at hpp hb; exact hq.prop id p b hpp hb (goodFor_append hgood)
+  · obtain ⟨p1, hp1, _, _, _, hc'⟩ := execute_spec hex
+    intro id p b hpp hb hgood
+    simp only [hc', AMap.get?_set] at hpp
+    simp only [hc', ballotsOf_frame] at hb
+    by_cases e : id0 = id
+    · simp only [e, if_true, Option.some.injEq] at hpp; subst hpp; subst e
+      exact hq.prop id0 p1 b hp1 hb (goodFor_append hgood)
+    · simp only [e, if_false] at hpp; exact hq.prop id p b hpp hb (goodFor_append hgood)
+  · obtain ⟨p1, _, hp1, _, _, _, _, _, _, hc'⟩ := close_spec hcl
+    intro id p b hpp hb hgood
+    simp only [hc', AMap.get?_set] at hpp
+    simp only [hc', ballotsOf_frame] at hb
+    by_cases e : id0 = id
+    · simp only [e, if_true, Option.some.injEq] at hpp; subst hpp; subst e
+      exact hq.prop id0 p1 b hp1 hb (goodFor_append hgood)
+    · simp only [e, if_false] at hpp; exact hq.prop id p b hpp hb (goodFor_append hgood)
+  · intro id p b hpp hb hgood
+    exact hq.prop id p b hpp hb (goodFor_append hgood)
+
+/-- A group call in block `H` keeps `GuardInv · H`. -/
+theorem guard_group {H0 : Nat} {w : Cw3Flex.World} {blk : Block} {snd : Addr} {m : Cw4Group.Msg} {g' : Cw4Group.State}
+    {outs : List Cw4Group.Out} (hq : GuardInv H0 w blk.height)
+    (hg : Cw4Group.execute w.group blk.height snd m = .ok (g', outs)) :
+    GuardInv H0 { w with group := g', log := w.log ++ [Cw3Flex.Event.groupWrite blk.height] } blk.height := by
+  have hs := C09.execute_sameBlock hg
+  refine ⟨⟨C06Flex.snap_group hq.tally.snap hg, C09.execute_inv hq.tally.ginv hg,
+      snapSum_execute hg hq.tally.ginv hq.tally.snap.membersLe hq.tally.gsum⟩, hq.h0le, ?_, ?_⟩
+  · exact logAll_sameBlock hs.1
+      (logAll_mono (fun x hx => hx.imp id (fun h => List.mem_append_left _ h)) hq.link)
+      (Or.inr (List.mem_append_right _ (by simp)))
+  · intro id p b hp hb hgood
+    have := hq.prop id p b hp hb (goodFor_append hgood)
+    show g'.members.atHeight p.proposer p.startHeight = some b.weight
+    rw [hs.1.atHeight_le hq.tally.snap.membersLe p.proposer (hq.tally.snap.startLe id p hp)]
+    exact this
+
+theorem guard_step (ext : Cw3Flex.Ext) (fuel : Nat) {H0 : Nat} {w : Cw3Flex.World} {H : Nat} (op : Cw3Flex.Op)
+    (hq : GuardInv H0 w H) (hH : H ≤ op.blk.height) :
+    GuardInv H0 (Cw3Flex.step ext fuel w op) op.blk.height := by
+  have hq' : GuardInv H0 w op.blk.height :=
+    ⟨⟨hq.tally.snap.mono hH, hq.tally.ginv, hq.tally.gsum⟩, Nat.le_trans hq.h0le hH, hq.link, hq.prop⟩
+  unfold Cw3Flex.step
+  split
+  · rename_i w' htx
+    exact Cw3Flex.tx_inv ext (fun w => GuardInv H0 w op.blk.height) op.blk
+      (fun w snd funds em s' out hq he => guard_flex hq he)
+      (fun w snd m g' outs hq hg => guard_group hq hg)
+      (fun w b hq => ⟨⟨⟨hq.tally.snap.inv, hq.tally.snap.membersLe, hq.tally.snap.totalLe, hq.tally.snap.startLe,
+        hq.tally.snap.ballot⟩, hq.tally.ginv, hq.tally.gsum⟩, hq.h0le, hq.link, hq.prop⟩)
+      (fun w t hq => ⟨⟨⟨hq.tally.snap.inv, hq.tally.snap.membersLe, hq.tally.snap.totalLe, hq.tally.snap.startLe,
+        hq.tally.snap.ballot⟩, hq.tally.ginv, hq.tally.gsum⟩, hq.h0le, hq.link, hq.prop⟩)
+      hq' htx
+  · exact hq'
+
+theorem guard_run (ext : Cw3Flex.Ext) (fuel : Nat) {H0 : Nat} (ops : List Cw3Flex.Op) : ∀ (w : Cw3Flex.World) (H : Nat),
+    GuardInv H0 w H → (∀ op ∈ ops, H ≤ op.blk.height) → C06Flex.Ordered ops →
+    ∃ H', GuardInv H0 (Cw3Flex.run ext fuel w ops) H' := by
+  induction ops with
+  | nil => intro w H hq _ _; exact ⟨H, hq⟩
+  | cons op rest ih =>
+    intro w H hq hge hord
+    have hp := List.pairwise_cons.mp hord
+    exact ih _ op.blk.height (guard_step ext fuel op hq (hge op (by simp))) (fun o ho => hp.1 o ho) hp.2
+
+/-- **C06 for the proposer over whole histories, and `StatusTotal` under the history-level guard (partial).**
+Instantiate the multisig on a group as in `flex_tally_fits_partial`, run any history of transactions at
+non-decreasing block heights `≥ H0`.  For every stored proposal whose `Propose` was not preceded, in the committed
+history (nested dispatches included), by a group write of the proposal's own block (`GoodFor`):
+* the proposer's ballot carries the weight the group — in its final state — reports for the proposer at the
+  proposal's start height (the statement `C06Flex.proposer_and_total_are_snapshot_partial` makes for one call);
+* the tally fits `u64` and the proposal has a status at every block.
+If every stored proposal satisfies the guard, `ListProposals` and `ReverseProposals` never fail (`StatusTotal`), for
+every cursor, limit and query block.  Proposals created right after a same-block group update are excluded: for them
+the statement is false of the code (D3, `C06Flex.C06_flex_counterexample`). -/
+theorem flex_status_total_guarded {ext : Cw3Flex.Ext} {fuel : Nat} {m : Cw3Flex.InstMsg} {s : Cw3Flex.State}
+    {g : Cw4Group.State} {t : Cw20.State} {bank : AMap (Addr × String) Nat} {self ga ta : Addr} {H0 : Nat}
+    (hi : Cw3Flex.instantiate m (some g) = .ok s) (hgi : C09.Inv g) (hgs : SnapSum g.members)
+    (hgm : g.members.LogLe H0) (hgt : g.total.LogLe H0)
+    (ops : List Cw3Flex.Op) (hge : ∀ op ∈ ops, H0 ≤ op.blk.height) (hord : C06Flex.Ordered ops) :
+    let w := Cw3Flex.run ext fuel (Cw3Flex.World.init s g t bank self ga ta H0) ops
+    (∀ id p, w.flex.core.proposals.get? id = some p → GoodFor w.log id p.startHeight →
+      (∀ b, (Cw3Core.ballotsOf w.flex.core id).get? p.proposer = some b →
+        Cw3Flex.memberAt w.group p.proposer p.startHeight = some b.weight)
+      ∧ p.Fits ∧ ∀ blk, ∃ st, p.currentStatus blk = .ok st)
+    ∧ ((∀ id p, w.flex.core.proposals.get? id = some p → GoodFor w.log id p.startHeight) →
+        TallyFits w.flex.core ∧ ∀ blk cur limit, StatusTotal w.flex.core blk ∧
+          (Cw3Flex.listProposals w.flex blk cur limit).isOk = true ∧
+          (Cw3Flex.reverseProposals w.flex blk cur limit).isOk = true) := by
+  intro w
+  have hcore : s.core = Cw3Core.Core.empty := by
+    simp only [Cw3Flex.instantiate, Res.bind_ok] at hi
+    obtain ⟨_, _, _, _, _, _, _, _, hi⟩ := hi
+    simp at hi; subst hi; rfl
+  have h0 : GuardInv H0 (Cw3Flex.World.init s g t bank self ga ta H0) H0 := by
+    refine ⟨⟨⟨Cw3Flex.instantiate_inv hi, hgm, hgt, ?_, ?_⟩, hgi, hgs⟩, Nat.le_refl _, ?_, ?_⟩
+    · intro id p hp; simp [Cw3Flex.World.init, hcore, Cw3Core.Core.empty] at hp
+    · intro id p a b hp; simp [Cw3Flex.World.init, hcore, Cw3Core.Core.empty] at hp
+    · intro k e he
+      have hle : e.1 ≤ H0 := hgm k e he
+      by_cases hlt : e.1 < H0
+      · exact Or.inl hlt
+      · have : e.1 = H0 := by omega
+        exact Or.inr (by simp [Cw3Flex.World.init, this])
+    · intro id p b hp; simp [Cw3Flex.World.init, hcore, Cw3Core.Core.empty] at hp
+  obtain ⟨H', hq⟩ := guard_run ext fuel ops _ H0 h0 hge hord
+  have hr : Cw3Flex.Reachable ext fuel w := ⟨m, s, g, t, bank, self, ga, ta, H0, ops, hi, rfl⟩
+  have key : ∀ id p, w.flex.core.proposals.get? id = some p → GoodFor w.log id p.startHeight →
+      (∀ b, (Cw3Core.ballotsOf w.flex.core id).get? p.proposer = some b →
+        Cw3Flex.memberAt w.group p.proposer p.startHeight = some b.weight) ∧ p.Fits := by
+    intro id p hp hgood
+    have hsnap : ∀ b, (Cw3Core.ballotsOf w.flex.core id).get? p.proposer = some b →
+        Cw3Flex.memberAt w.group p.proposer p.startHeight = some b.weight :=
+      fun b hb => hq.prop id p b hp hb hgood
+    exact ⟨hsnap, tallyInv_fits hq.tally hp (fun b hb => by rw [hsnap b hb]; exact Nat.le_refl _)⟩
+  refine ⟨fun id p hp hgood => ?_, fun hall => ?_⟩
+  · obtain ⟨h1, h2⟩ := key id p hp hgood
+    exact ⟨h1, h2, Cw3Flex.reachable_statusInv hr id p hp h2⟩
+  · have hfits : TallyFits w.flex.core := fun id p hp => (key id p hp (hall id p hp)).2
+    exact ⟨hfits, fun blk cur limit => ⟨flex_status_total hr hfits blk, flex_proposal_listings_total hr hfits blk cur limit⟩⟩
+
+/-! ## Every cursor: the 13 listings started from an arbitrary `start_after` / `start_before`
+
+The `*_complete` theorems above start the client loop without cursor.  Below, for each of the 13 listings, the
+loop is started at an **arbitrary** cursor `c` (a key taken from an earlier page, a key removed since, or any other
+value; for the listings that validate the cursor the client passes it as an address that validates): it returns
+exactly the current items strictly beyond `c`, in key order, each once — the sorted entries filtered by
+`key > c` (`key < c` for `ReverseProposals`).  Instances of `C20.listing_complete_after(_desc/_filtered)`;
+`C20.listing_split_at_cursor` says that these items together with the items up to `c` are the whole listing. -/
+
+theorem group_listMembers_loop_after {s : Cw4Group.State} (hs : AMap.NodupKeys s.members.cur) (limit : Option Nat)
+    (hl : limit ≠ some 0) (c : String) {fuel : Nat} (hf : s.members.cur.length + 1 ≤ fuel) :
+    fetchLoop (fun c => okItems (Cw4Group.queryListMembers s (c.map (⟨true, ·⟩)) limit)) (·.1) (some c) fuel
+      = (sortedEntries strLt s.members.cur).filter (fun x => strLt c x.1) :=
+  listing_complete_after_id strictTotal_strLt hs hl
+    (fun c => by cases c <;> simp [group_listMembers_eq]) c hf
+
+/-- cw4-group `ListMembers` from any cursor, every reachable state. -/
+theorem group_listMembers_complete_after {m : Cw4Group.InstMsg} {h0 : Nat} {s0 : Cw4Group.State}
+    (hi : Cw4Group.instantiate m h0 = .ok s0) (ops : List Cw4Group.Op) (limit : Option Nat) (hl : limit ≠ some 0)
+    (c : String) {fuel : Nat} (hf : (Cw4Group.run s0 ops).members.cur.length + 1 ≤ fuel) :
+    fetchLoop (fun c => okItems (Cw4Group.queryListMembers (Cw4Group.run s0 ops) (c.map (⟨true, ·⟩)) limit))
+        (·.1) (some c) fuel
+      = (sortedEntries strLt (Cw4Group.run s0 ops).members.cur).filter (fun x => strLt c x.1) :=
+  group_listMembers_loop_after (Cw4Group.run_nodup ops (Cw4Group.instantiate_nodup hi)) limit hl c hf
+
+theorem stake_listMembers_loop_after {s : Cw4Stake.State} (hs : AMap.NodupKeys s.members.cur) (limit : Option Nat)
+    (hl : limit ≠ some 0) (c : String) {fuel : Nat} (hf : s.members.cur.length + 1 ≤ fuel) :
+    fetchLoop (fun c => okItems (Cw4Stake.queryListMembers s (c.map (⟨true, ·⟩)) limit)) (·.1) (some c) fuel
+      = (sortedEntries strLt s.members.cur).filter (fun x => strLt c x.1) :=
+  listing_complete_after_id strictTotal_strLt hs hl
+    (fun c => by cases c <;> simp [stake_listMembers_eq]) c hf
+
+/-- cw4-stake `ListMembers` from any cursor, every reachable world. -/
+theorem stake_listMembers_complete_after {m : Cw4Stake.InstMsg} {s0 : Cw4Stake.State}
+    (hi : Cw4Stake.instantiate m = .ok s0) (bal : AMap Addr Nat) (accepting : List Addr)
+    (ops : List (Block × Cw4Stake.Op)) (limit : Option Nat) (hl : limit ≠ some 0) (c : String) {fuel : Nat}
+    (hf : (Cw4Stake.run (Cw4Stake.World.init s0 bal accepting) ops).st.members.cur.length + 1 ≤ fuel) :
+    fetchLoop (fun c => okItems (Cw4Stake.queryListMembers
+        (Cw4Stake.run (Cw4Stake.World.init s0 bal accepting) ops).st (c.map (⟨true, ·⟩)) limit)) (·.1) (some c) fuel
+      = (sortedEntries strLt (Cw4Stake.run (Cw4Stake.World.init s0 bal accepting) ops).st.members.cur).filter
+          (fun x => strLt c x.1) :=
+  stake_listMembers_loop_after
+    (Cw4Stake.run_nodup (w := Cw4Stake.World.init s0 bal accepting) (Cw4Stake.instantiate_nodup hi) ops) limit hl c hf
+
+theorem subkeys_allAllowances_loop_after {s : Cw1Subkeys.State} (hs : AMap.NodupKeys s.allowances) (blk : Block)
+    (limit : Option Nat) (hl : limit ≠ some 0) (c : String) {fuel : Nat} (hf : s.allowances.length + 1 ≤ fuel) :
+    fetchLoop (fun c => Cw1Subkeys.queryAllAllowances s blk c limit) (·.1) (some c) fuel
+      = ((sortedEntries strLt s.allowances).filter (live blk)).filter (fun x => strLt c x.1) :=
+  listing_complete_filtered_after_id strictTotal_strLt hs (live blk) hl
+    (fun c => subkeys_allAllowances_eq s blk c limit) c hf
+
+/-- cw1-subkeys `AllAllowances` from any cursor, every reachable state: the unexpired allowances beyond `c`. -/
+theorem subkeys_allAllowances_complete_after {m : Cw1Subkeys.InstMsg} {s0 : Cw1Subkeys.State}
+    (hi : Cw1Subkeys.instantiate m = .ok s0) (ops : List (Block × Addr × Cw1Subkeys.Msg)) (blk : Block)
+    (limit : Option Nat) (hl : limit ≠ some 0) (c : String) {fuel : Nat}
+    (hf : (subkeysRun s0 ops).allowances.length + 1 ≤ fuel) :
+    fetchLoop (fun c => Cw1Subkeys.queryAllAllowances (subkeysRun s0 ops) blk c limit) (·.1) (some c) fuel
+      = ((sortedEntries strLt (subkeysRun s0 ops).allowances).filter (live blk)).filter (fun x => strLt c x.1) :=
+  subkeys_allAllowances_loop_after (Cw1Subkeys.run_nodup ops (Cw1Subkeys.instantiate_nodup hi)).allowances blk limit hl c hf
+
+theorem subkeys_allPermissions_loop_after {s : Cw1Subkeys.State} (hs : AMap.NodupKeys s.permissions)
+    (limit : Option Nat) (hl : limit ≠ some 0) (c : String) {fuel : Nat} (hf : s.permissions.length + 1 ≤ fuel) :
+    fetchLoop (fun c => Cw1Subkeys.queryAllPermissions s c limit) (·.1) (some c) fuel
+      = (sortedEntries strLt s.permissions).filter (fun x => strLt c x.1) :=
+  listing_complete_after_id strictTotal_strLt hs hl (fun _ => rfl) c hf
+
+/-- cw1-subkeys `AllPermissions` from any cursor, every reachable state. -/
+theorem subkeys_allPermissions_complete_after {m : Cw1Subkeys.InstMsg} {s0 : Cw1Subkeys.State}
+    (hi : Cw1Subkeys.instantiate m = .ok s0) (ops : List (Block × Addr × Cw1Subkeys.Msg))
+    (limit : Option Nat) (hl : limit ≠ some 0) (c : String) {fuel : Nat}
+    (hf : (subkeysRun s0 ops).permissions.length + 1 ≤ fuel) :
+    fetchLoop (fun c => Cw1Subkeys.queryAllPermissions (subkeysRun s0 ops) c limit) (·.1) (some c) fuel
+      = (sortedEntries strLt (subkeysRun s0 ops).permissions).filter (fun x => strLt c x.1) :=
+  subkeys_allPermissions_loop_after (Cw1Subkeys.run_nodup ops (Cw1Subkeys.instantiate_nodup hi)).permissions limit hl c hf
+
+theorem ics20_listAllowed_loop_after {s : Ics20.State} (hs : AMap.NodupKeys s.allow) (limit : Option Nat)
+    (hl : limit ≠ some 0) (c : String) {fuel : Nat} (hf : s.allow.length + 1 ≤ fuel) :
+    fetchLoop (fun c => okItems (Ics20.queryListAllowed s (c.map (⟨true, ·⟩)) limit)) (·.1) (some c) fuel
+      = (sortedEntries strLt s.allow).filter (fun x => strLt c x.1) :=
+  listing_complete_after_id strictTotal_strLt hs hl
+    (fun c => by cases c <;> simp [ics20_listAllowed_eq]) c hf
+
+/-- cw20-ics20 `ListAllowed` from any cursor, every reachable world. -/
+theorem ics20_listAllowed_complete_after {m : Ics20.InstMsg} {w0 : Ics20.World} (hi : Ics20.instantiate m = .ok w0.st)
+    (ops : List (Block × Ics20.Op)) (limit : Option Nat) (hl : limit ≠ some 0) (c : String) {fuel : Nat}
+    (hf : (ics20Run w0 ops).st.allow.length + 1 ≤ fuel) :
+    fetchLoop (fun c => okItems (Ics20.queryListAllowed (ics20Run w0 ops).st (c.map (⟨true, ·⟩)) limit)) (·.1)
+        (some c) fuel
+      = (sortedEntries strLt (ics20Run w0 ops).st.allow).filter (fun x => strLt c x.1) :=
+  ics20_listAllowed_loop_after (Ics20.run_nodup ops (Ics20.instantiate_nodup hi)) limit hl c hf
+
+/-- `ListProposals` from any `start_after = cur` (state level): the views of the stored proposals with id above
+`cur`, ascending. -/
+theorem core_listProposals_loop_after {c : Cw3Core.Core} {blk : Block} (hn : AMap.NodupKeys c.proposals)
+    (hv : StatusTotal c blk) (limit : Option Nat) (hl : limit ≠ some 0) (cur : Nat) {fuel : Nat}
+    (hf : c.proposals.length + 1 ≤ fuel) :
+    Cw3Core.viewAll blk ((sortedEntries natLt c.proposals).filter (fun x => natLt cur x.1))
+      = .ok (fetchLoop (fun cur => okItems (Cw3Core.listProposals c blk cur limit)) (·.id) (some cur) fuel) := by
+  rw [listing_complete_after strictTotal_natLt hn hl (f := Cw3Core.viewD blk) (key := (·.id))
+    (fun cur => by rw [core_listProposals_eq hn hv]; rfl) (fun _ => rfl) cur hf]
+  exact Cw3Core.viewAll_eq_map fun _ hx =>
+    statusTotal_of_mem hn hv (mem_sortedEntries.mp (List.mem_filter.mp hx).1)
+
+/-- `ReverseProposals` from any `start_before = cur` (state level): the views of the stored proposals with id
+below `cur`, descending. -/
+theorem core_reverseProposals_loop_after {c : Cw3Core.Core} {blk : Block} (hn : AMap.NodupKeys c.proposals)
+    (hv : StatusTotal c blk) (limit : Option Nat) (hl : limit ≠ some 0) (cur : Nat) {fuel : Nat}
+    (hf : c.proposals.length + 1 ≤ fuel) :
+    Cw3Core.viewAll blk ((sortedEntries natLt c.proposals).reverse.filter (fun x => natLt x.1 cur))
+      = .ok (fetchLoop (fun cur => okItems (Cw3Core.reverseProposals c blk cur limit)) (·.id) (some cur) fuel) := by
+  rw [listing_complete_desc_after strictTotal_natLt hn hl (f := Cw3Core.viewD blk) (key := (·.id))
+    (q := fun cur => okItems (Cw3Core.reverseProposals c blk cur limit))
+    (fun cur => by rw [core_reverseProposals_eq hn hv]; rfl) (fun _ => rfl) cur hf]
+  exact Cw3Core.viewAll_eq_map fun _ hx =>
+    statusTotal_of_mem hn hv (mem_sortedEntries.mp (List.mem_reverse.mp (List.mem_filter.mp hx).1))
+
+/-- `ListVotes` of one proposal from any raw cursor (state level). -/
+theorem core_listVotes_loop_after {c : Cw3Core.Core} (hw : Cw3Core.WF c) (id : Nat) (limit : Option Nat)
+    (hl : limit ≠ some 0) (cur : String) {fuel : Nat} (hf : (Cw3Core.ballotsOf c id).length + 1 ≤ fuel) :
+    fetchLoop (fun cur => Cw3Core.listVotes c id cur limit) (·.1) (some cur) fuel
+      = (sortedEntries strLt (Cw3Core.ballotsOf c id)).filter (fun x => strLt cur x.1) :=
+  listing_complete_after_id strictTotal_strLt (hw.nodup id) hl (fun _ => rfl) cur hf
+
+/-- cw3-fixed `ListProposals` from any cursor, every reachable world, every query block. -/
+theorem fixed_listProposals_complete_after {fuel : Nat} {w : Cw3Fixed.World} (hr : Cw3Fixed.Reachable fuel w)
+    (blk : Block) (limit : Option Nat) (hl : limit ≠ some 0) (cur : Nat) {n : Nat}
+    (hf : w.ms.core.proposals.length + 1 ≤ n) :
+    Cw3Core.viewAll blk ((sortedEntries natLt w.ms.core.proposals).filter (fun x => natLt cur x.1))
+      = .ok (fetchLoop (fun cur => okItems (Cw3Fixed.listProposals w.ms blk cur limit)) (·.id) (some cur) n) :=
+  core_listProposals_loop_after (Cw3Fixed.reachable_nodup hr) (fixed_status_total hr blk) limit hl cur hf
+
+/-- cw3-fixed `ReverseProposals` from any `start_before`, every reachable world. -/
+theorem fixed_reverseProposals_complete_after {fuel : Nat} {w : Cw3Fixed.World} (hr : Cw3Fixed.Reachable fuel w)
+    (blk : Block) (limit : Option Nat) (hl : limit ≠ some 0) (cur : Nat) {n : Nat}
+    (hf : w.ms.core.proposals.length + 1 ≤ n) :
+    Cw3Core.viewAll blk ((sortedEntries natLt w.ms.core.proposals).reverse.filter (fun x => natLt x.1 cur))
+      = .ok (fetchLoop (fun cur => okItems (Cw3Fixed.reverseProposals w.ms blk cur limit)) (·.id) (some cur) n) :=
+  core_reverseProposals_loop_after (Cw3Fixed.reachable_nodup hr) (fixed_status_total hr blk) limit hl cur hf
+
+/-- cw3-fixed `ListVotes` from any raw cursor, every reachable world, every proposal id. -/
+theorem fixed_listVotes_complete_after {fuel : Nat} {w : Cw3Fixed.World} (hr : Cw3Fixed.Reachable fuel w) (id : Nat)
+    (limit : Option Nat) (hl : limit ≠ some 0) (cur : String) {n : Nat}
+    (hf : (Cw3Core.ballotsOf w.ms.core id).length + 1 ≤ n) :
+    fetchLoop (fun cur => Cw3Fixed.listVotes w.ms id cur limit) (·.1) (some cur) n
+      = (sortedEntries strLt (Cw3Core.ballotsOf w.ms.core id)).filter (fun x => strLt cur x.1) :=
+  core_listVotes_loop_after (Cw3Fixed.reachable_inv hr).wf id limit hl cur hf
+
+/-- cw3-fixed `ListVoters` from any raw cursor, every reachable world. -/
+theorem fixed_listVoters_complete_after {fuel : Nat} {w : Cw3Fixed.World} (hr : Cw3Fixed.Reachable fuel w)
+    (limit : Option Nat) (hl : limit ≠ some 0) (cur : String) {n : Nat} (hf : w.ms.voters.length + 1 ≤ n) :
+    fetchLoop (fun cur => Cw3Fixed.listVoters w.ms cur limit) (·.1) (some cur) n
+      = (sortedEntries strLt w.ms.voters).filter (fun x => strLt cur x.1) :=
+  listing_complete_after_id strictTotal_strLt (Cw3Fixed.reachable_inv hr).votersNodup hl (fun _ => rfl) cur hf
+
+/-- cw3-flex `ListProposals` from any cursor (same hypothesis `StatusTotal` as `flex_listProposals_complete`). -/
+theorem flex_listProposals_complete_after {ext : Cw3Flex.Ext} {fuel : Nat} {w : Cw3Flex.World}
+    (hr : Cw3Flex.Reachable ext fuel w) (blk : Block) (hv : StatusTotal w.flex.core blk)
+    (limit : Option Nat) (hl : limit ≠ some 0) (cur : Nat) {n : Nat} (hf : w.flex.core.proposals.length + 1 ≤ n) :
+    Cw3Core.viewAll blk ((sortedEntries natLt w.flex.core.proposals).filter (fun x => natLt cur x.1))
+      = .ok (fetchLoop (fun cur => okItems (Cw3Flex.listProposals w.flex blk cur limit)) (·.id) (some cur) n) :=
+  core_listProposals_loop_after (Cw3Flex.reachable_nodup hr) hv limit hl cur hf
+
+/-- cw3-flex `ReverseProposals` from any `start_before` (same hypothesis). -/
+theorem flex_reverseProposals_complete_after {ext : Cw3Flex.Ext} {fuel : Nat} {w : Cw3Flex.World}
+    (hr : Cw3Flex.Reachable ext fuel w) (blk : Block) (hv : StatusTotal w.flex.core blk)
+    (limit : Option Nat) (hl : limit ≠ some 0) (cur : Nat) {n : Nat} (hf : w.flex.core.proposals.length + 1 ≤ n) :
+    Cw3Core.viewAll blk ((sortedEntries natLt w.flex.core.proposals).reverse.filter (fun x => natLt x.1 cur))
+      = .ok (fetchLoop (fun cur => okItems (Cw3Flex.reverseProposals w.flex blk cur limit)) (·.id) (some cur) n) :=
+  core_reverseProposals_loop_after (Cw3Flex.reachable_nodup hr) hv limit hl cur hf
+
+/-- cw3-flex `ListVotes` from any (validating) cursor, every reachable world, every proposal id. -/
+theorem flex_listVotes_complete_after {ext : Cw3Flex.Ext} {fuel : Nat} {w : Cw3Flex.World}
+    (hr : Cw3Flex.Reachable ext fuel w) (id : Nat) (limit : Option Nat) (hl : limit ≠ some 0) (cur : String) {n : Nat}
+    (hf : (Cw3Core.ballotsOf w.flex.core id).length + 1 ≤ n) :
+    fetchLoop (fun cur => okItems (Cw3Flex.listVotes w.flex id (cur.map (⟨true, ·⟩)) limit)) (·.1) (some cur) n
+      = (sortedEntries strLt (Cw3Core.ballotsOf w.flex.core id)).filter (fun x => strLt cur x.1) :=
+  listing_complete_after_id strictTotal_strLt ((Cw3Flex.reachable_inv hr).wf.nodup id) hl
+    (fun c => by cases c <;> simp [flex_listVotes_eq]) cur hf
+
+/-- cw3-flex `ListVoters` from any (validating) cursor, in the worlds of `flex_listVoters_complete`. -/
+theorem flex_listVoters_complete_after {gm : Cw4Group.InstMsg} {h0 : Nat} {g0 : Cw4Group.State}
+    (hg : Cw4Group.instantiate gm h0 = .ok g0) (gops : List Cw4Group.Op) (s : Cw3Flex.State) (t : Cw20.State)
+    (bank : AMap (Addr × String) Nat) (self groupAddr tokenAddr : Addr) (hh : Nat) (ext : Cw3Flex.Ext) (fuel : Nat)
+    (ops : List Cw3Flex.Op) (limit : Option Nat) (hl : limit ≠ some 0) (cur : String) {n : Nat}
+    (hf : (Cw3Flex.run ext fuel (Cw3Flex.World.init s (Cw4Group.run g0 gops) t bank self groupAddr tokenAddr hh)
+      ops).group.members.cur.length + 1 ≤ n) :
+    fetchLoop (fun cur => okItems (Cw3Flex.listVoters
+        (Cw3Flex.run ext fuel (Cw3Flex.World.init s (Cw4Group.run g0 gops) t bank self groupAddr tokenAddr hh) ops).group
+        (cur.map (⟨true, ·⟩)) limit)) (·.1) (some cur) n
+      = (sortedEntries strLt
+        (Cw3Flex.run ext fuel (Cw3Flex.World.init s (Cw4Group.run g0 gops) t bank self groupAddr tokenAddr hh)
+          ops).group.members.cur).filter (fun x => strLt cur x.1) :=
+  group_listMembers_loop_after
+    (Cw3Flex.run_group_nodup ext fuel ops _ (Cw4Group.run_nodup gops (Cw4Group.instantiate_nodup hg))) limit hl cur hf
+
+/-- **C20 "every cursor", the 13 listings outside cw20-base together.**  Same reachable states and hypotheses
+as `all_listings_complete`; in addition an arbitrary string cursor `cs` (for the address-keyed listings) and an
+arbitrary numeric cursor `cn` (for the proposal listings).  For every listing the client loop *started at that
+cursor* returns exactly the current items strictly beyond it, in key order, each once. -/
+theorem all_listings_complete_after
+    {skm : Cw1Subkeys.InstMsg} {sk0 : Cw1Subkeys.State} (hsk : Cw1Subkeys.instantiate skm = .ok sk0)
+    (skops : List (Block × Addr × Cw1Subkeys.Msg))
+    {xfuel : Nat} {wx : Cw3Fixed.World} (hfx : Cw3Fixed.Reachable xfuel wx)
+    {gm : Cw4Group.InstMsg} {h0 : Nat} {g0 : Cw4Group.State} (hg : Cw4Group.instantiate gm h0 = .ok g0)
+    (gops : List Cw4Group.Op)
+    {fm : Cw3Flex.InstMsg} {fs : Cw3Flex.State} (hfi : Cw3Flex.instantiate fm (some (Cw4Group.run g0 gops)) = .ok fs)
+    (t : Cw20.State) (bank : AMap (Addr × String) Nat) (self groupAddr tokenAddr : Addr) (hh : Nat)
+    (ext : Cw3Flex.Ext) (ffuel : Nat) (fops : List Cw3Flex.Op)
+    {sm : Cw4Stake.InstMsg} {ss0 : Cw4Stake.State} (hst : Cw4Stake.instantiate sm = .ok ss0)
+    (bal : AMap Addr Nat) (accepting : List Addr) (sops : List (Block × Cw4Stake.Op))
+    {im : Ics20.InstMsg} {iw0 : Ics20.World} (hic : Ics20.instantiate im = .ok iw0.st) (iops : List (Block × Ics20.Op))
+    (blk : Block) (id : Nat) (limit : Option Nat) (hl : limit ≠ some 0) (cs : String) (cn : Nat)
+    (hv : StatusTotal (Cw3Flex.run ext ffuel
+      (Cw3Flex.World.init fs (Cw4Group.run g0 gops) t bank self groupAddr tokenAddr hh) fops).flex.core blk) :
+    let sk := subkeysRun sk0 skops
+    let g := Cw4Group.run g0 gops
+    let wf := Cw3Flex.run ext ffuel (Cw3Flex.World.init fs g t bank self groupAddr tokenAddr hh) fops
+    let ws := Cw4Stake.run (Cw4Stake.World.init ss0 bal accepting) sops
+    let wi := ics20Run iw0 iops
+    let above : {ν : Type} → Addr × ν → Bool := fun x => strLt cs x.1
+    (fetchLoop (fun c => Cw1Subkeys.queryAllAllowances sk blk c limit) (·.1) (some cs) (sk.allowances.length + 1)
+        = ((sortedEntries strLt sk.allowances).filter (live blk)).filter above) ∧
+    (fetchLoop (fun c => Cw1Subkeys.queryAllPermissions sk c limit) (·.1) (some cs) (sk.permissions.length + 1)
+        = (sortedEntries strLt sk.permissions).filter above) ∧
+    (Cw3Core.viewAll blk ((sortedEntries natLt wx.ms.core.proposals).filter (fun x => natLt cn x.1))
+        = .ok (fetchLoop (fun c => okItems (Cw3Fixed.listProposals wx.ms blk c limit)) (·.id) (some cn)
+            (wx.ms.core.proposals.length + 1))) ∧
+    (Cw3Core.viewAll blk ((sortedEntries natLt wx.ms.core.proposals).reverse.filter (fun x => natLt x.1 cn))
+        = .ok (fetchLoop (fun c => okItems (Cw3Fixed.reverseProposals wx.ms blk c limit)) (·.id) (some cn)
+            (wx.ms.core.proposals.length + 1))) ∧
+    (fetchLoop (fun c => Cw3Fixed.listVotes wx.ms id c limit) (·.1) (some cs) ((Cw3Core.ballotsOf wx.ms.core id).length + 1)
+        = (sortedEntries strLt (Cw3Core.ballotsOf wx.ms.core id)).filter above) ∧
+    (fetchLoop (fun c => Cw3Fixed.listVoters wx.ms c limit) (·.1) (some cs) (wx.ms.voters.length + 1)
+        = (sortedEntries strLt wx.ms.voters).filter above) ∧
+    (Cw3Core.viewAll blk ((sortedEntries natLt wf.flex.core.proposals).filter (fun x => natLt cn x.1))
+        = .ok (fetchLoop (fun c => okItems (Cw3Flex.listProposals wf.flex blk c limit)) (·.id) (some cn)
+            (wf.flex.core.proposals.length + 1))) ∧
+    (Cw3Core.viewAll blk ((sortedEntries natLt wf.flex.core.proposals).reverse.filter (fun x => natLt x.1 cn))
+        = .ok (fetchLoop (fun c => okItems (Cw3Flex.reverseProposals wf.flex blk c limit)) (·.id) (some cn)
+            (wf.flex.core.proposals.length + 1))) ∧
+    (fetchLoop (fun c => okItems (Cw3Flex.listVotes wf.flex id (c.map (⟨true, ·⟩)) limit)) (·.1) (some cs)
+          ((Cw3Core.ballotsOf wf.flex.core id).length + 1)
+        = (sortedEntries strLt (Cw3Core.ballotsOf wf.flex.core id)).filter above) ∧
+    (fetchLoop (fun c => okItems (Cw3Flex.listVoters wf.group (c.map (⟨true, ·⟩)) limit)) (·.1) (some cs)
+          (wf.group.members.cur.length + 1)
+        = (sortedEntries strLt wf.group.members.cur).filter above) ∧
+    (fetchLoop (fun c => okItems (Cw4Group.queryListMembers g (c.map (⟨true, ·⟩)) limit)) (·.1) (some cs)
+          (g.members.cur.length + 1)
+        = (sortedEntries strLt g.members.cur).filter above) ∧
+    (fetchLoop (fun c => okItems (Cw4Stake.queryListMembers ws.st (c.map (⟨true, ·⟩)) limit)) (·.1) (some cs)
+          (ws.st.members.cur.length + 1)
+        = (sortedEntries strLt ws.st.members.cur).filter above) ∧
+    (fetchLoop (fun c => okItems (Ics20.queryListAllowed wi.st (c.map (⟨true, ·⟩)) limit)) (·.1) (some cs)
+          (wi.st.allow.length + 1)
+        = (sortedEntries strLt wi.st.allow).filter above) := by
+  intro sk g wf ws wi above
+  have hrf : Cw3Flex.Reachable ext ffuel wf :=
+    ⟨fm, fs, g, t, bank, self, groupAddr, tokenAddr, hh, fops, hfi, rfl⟩
+  exact ⟨subkeys_allAllowances_complete_after hsk skops blk limit hl cs (Nat.le_refl _),
+    subkeys_allPermissions_complete_after hsk skops limit hl cs (Nat.le_refl _),
+    fixed_listProposals_complete_after hfx blk limit hl cn (Nat.le_refl _),
+    fixed_reverseProposals_complete_after hfx blk limit hl cn (Nat.le_refl _),
+    fixed_listVotes_complete_after hfx id limit hl cs (Nat.le_refl _),
+    fixed_listVoters_complete_after hfx limit hl cs (Nat.le_refl _),
+    flex_listProposals_complete_after hrf blk hv limit hl cn (Nat.le_refl _),
+    flex_reverseProposals_complete_after hrf blk hv limit hl cn (Nat.le_refl _),
+    flex_listVotes_complete_after hrf id limit hl cs (Nat.le_refl _),
+    flex_listVoters_complete_after hg gops fs t bank self groupAddr tokenAddr hh ext ffuel fops limit hl cs (Nat.le_refl _),
+    group_listMembers_complete_after hg gops limit hl cs (Nat.le_refl _),
+    stake_listMembers_complete_after hst bal accepting sops limit hl cs (Nat.le_refl _),
+    ics20_listAllowed_complete_after hic iops limit hl cs (Nat.le_refl _)⟩
+
 /-! ## Non-vacuity: a concrete state per contract where the hypotheses hold, with concrete pages -/
 
 /-- The sorted listing of a concrete map, from any sorted permutation of it (`mergeSort` does not reduce
@@ -825,5 +1576,124 @@ example : (Cw3Core.listProposals cBad ⟨7, 0⟩ none none).isOk = false := by
   have h : sortedEntries natLt cBad.proposals = cBad.proposals :=
     sortedEntries_of_sorted strictTotal_natLt (by unfold Sorted; decide)
   simp only [Cw3Core.listProposals, h]; decide
+
+
+/-! ### Non-vacuity of the any-cursor theorems: loops started in the middle, at a key and between keys -/
+
+example : fetchLoop (fun c => okItems (Cw4Group.queryListMembers gEx (c.map (⟨true, ·⟩)) (some 1))) (·.1) (some "a") 4
+    = [("b", 2), ("c", 3)] := by
+  rw [group_listMembers_loop_after gEx_nodup (some 1) (by decide) "a" (by decide), gEx_sorted]; decide
+example : fetchLoop (fun c => okItems (Cw4Stake.queryListMembers stEx (c.map (⟨true, ·⟩)) none)) (·.1) (some "aa") 4
+    = [("b", 2), ("c", 3)] := by
+  rw [stake_listMembers_loop_after stEx_nodup none (by decide) "aa" (by decide), stEx_sorted]; decide
+/-- filtered listing from the cursor "a" at height 10: the expired `b` is skipped, `c` remains -/
+example : fetchLoop (fun c => Cw1Subkeys.queryAllAllowances skEx ⟨10, 0⟩ c (some 1)) (·.1) (some "a") 4
+    = [("c", ⟨[("ua", 3)], .never⟩)] := by
+  rw [subkeys_allAllowances_loop_after skEx_nodup.allowances ⟨10, 0⟩ (some 1) (by decide) "a" (by decide), skEx_sorted]
+  decide
+example : fetchLoop (fun c => okItems (Ics20.queryListAllowed icEx (c.map (⟨true, ·⟩)) (some 1))) (·.1) (some "toka") 3
+    = [("tokb", some 5)] := by
+  rw [ics20_listAllowed_loop_after icEx_nodup (some 1) (by decide) "toka" (by decide), icEx_sorted]; decide
+/-- proposals: ascending from id 1, descending from `start_before = 2` -/
+example : fetchLoop (fun c => okItems (Cw3Core.listProposals cEx ⟨7, 0⟩ c (some 1))) (·.id) (some 1) 3
+    = [Cw3Core.viewD ⟨7, 0⟩ (2, prEx .rejected)] := by
+  have h := core_listProposals_loop_after cEx_nodup (cEx_status ⟨7, 0⟩) (some 1) (by decide) 1 (fuel := 3) (by decide)
+  rw [cEx_sorted] at h
+  exact (Except.ok.inj h).symm
+example : fetchLoop (fun c => okItems (Cw3Core.reverseProposals cEx ⟨7, 0⟩ c (some 1))) (·.id) (some 2) 3
+    = [Cw3Core.viewD ⟨7, 0⟩ (1, prEx .executed)] := by
+  have h := core_reverseProposals_loop_after cEx_nodup (cEx_status ⟨7, 0⟩) (some 1) (by decide) 2 (fuel := 3) (by decide)
+  rw [cEx_sorted] at h
+  exact (Except.ok.inj h).symm
+
+
+/-! ### Non-vacuity of `flex_tally_fits_partial` / `flex_status_total_partial`
+
+The D3 world of `Props/C06Flex.lean` (group `a:1, b:4` instantiated at height 5, multisig on top), with the
+`Propose` one block *after* the group update (so the guard holds): update in block 10, `a` proposes in block 11
+(weight 3 = its snapshot weight at 11), `b` votes in block 12. -/
+
+def flexOps : List Cw3Flex.Op :=
+  [⟨⟨10, 0⟩, .group "adm" (.updateMembers [] [(⟨true, "a"⟩, 3)])⟩,
+   ⟨⟨11, 0⟩, .flex "a" [] (.propose "t" "d" [] none)⟩,
+   ⟨⟨12, 0⟩, .flex "b" [] (.vote 1 .no)⟩]
+
+def flexFinal : Cw3Flex.World := Cw3Flex.run C06Flex.Cex.noExt 10 C06Flex.Cex.world0 flexOps
+
+theorem flexGroup0_ok : Cw4Group.instantiate ⟨some ⟨true, "adm"⟩, [(⟨true, "a"⟩, 1), (⟨true, "b"⟩, 4)]⟩ 5
+    = .ok C06Flex.Cex.group0 := rfl
+
+example : C06Flex.Ordered flexOps ∧ ∀ op ∈ flexOps, 5 ≤ op.blk.height := by unfold C06Flex.Ordered; decide
+
+/-- the proposal exists, both ballots are recorded, and the proposer's ballot (3) is its snapshot weight at 11 -/
+example : ((flexFinal.flex.core.proposals.get? 1).map fun p => (p.startHeight, p.proposer, p.votes.yes, p.votes.no))
+      = some (11, "a", 3, 4)
+    ∧ ((Cw3Core.ballotsOf flexFinal.flex.core 1).get? "a").map (·.weight) = some 3
+    ∧ Cw3Flex.memberAt flexFinal.group "a" 11 = some 3 := by decide
+
+example : ∃ p, flexFinal.flex.core.proposals.get? 1 = some p ∧ p.Fits ∧ ∀ blk, ∃ st, p.currentStatus blk = .ok st := by
+  obtain ⟨h1, h2, h3, h4⟩ := group_instantiate_snapSum flexGroup0_ok
+  have hp : ∃ p, flexFinal.flex.core.proposals.get? 1 = some p ∧ p.proposer = "a" ∧ p.startHeight = 11 := by
+    cases hx : flexFinal.flex.core.proposals.get? 1 with
+    | none => revert hx; decide
+    | some p =>
+      refine ⟨p, rfl, ?_, ?_⟩
+      · have : (flexFinal.flex.core.proposals.get? 1).map (·.proposer) = some "a" := by decide
+        rw [hx] at this; simpa using this
+      · have : (flexFinal.flex.core.proposals.get? 1).map (·.startHeight) = some 11 := by decide
+        rw [hx] at this; simpa using this
+  obtain ⟨p, hp, hpr, hst⟩ := hp
+  refine ⟨p, hp, ?_⟩
+  refine flex_tally_fits_partial (m := C06Flex.Cex.inst) (s := C06Flex.Cex.flex0) (g := C06Flex.Cex.group0)
+    (t := C06Flex.Cex.token0) (bank := []) (self := "ms") (ga := "grp") (ta := "tok") (H0 := 5) (ext := C06Flex.Cex.noExt)
+    (fuel := 10) rfl h1 h2 h3 h4 flexOps (by decide) (by unfold C06Flex.Ordered; decide) (id := 1) hp ?_
+  intro b hb
+  rw [hpr, hst]
+  rw [hpr] at hb
+  have hb' : (Cw3Core.ballotsOf flexFinal.flex.core 1).get? "a" = some ⟨3, .yes⟩ := by decide
+  have hm : Cw3Flex.memberAt flexFinal.group "a" 11 = some 3 := by decide
+  have e : b = ⟨3, .yes⟩ := Option.some.inj (hb.symm.trans hb')
+  rw [e]
+  show 3 ≤ (Cw3Flex.memberAt flexFinal.group "a" 11).getD 0
+  rw [hm]; decide
+
+
+/-- `flex_status_total_guarded` on the same history: the committed log is
+`[groupWrite 5, groupWrite 10, proposed 1 a, voted 1 b]`; the proposal started in block 11, and no group write of
+block 11 precedes its `Propose` — the guard holds for every stored proposal, so both proposal listings are total. -/
+example : flexFinal.log = [.groupWrite 5, .groupWrite 10, .proposed 1 "a", .voted 1 "b"] := by decide
+
+example : ∀ blk cur limit, (Cw3Flex.listProposals flexFinal.flex blk cur limit).isOk = true ∧
+    (Cw3Flex.reverseProposals flexFinal.flex blk cur limit).isOk = true := by
+  obtain ⟨h1, h2, h3, h4⟩ := group_instantiate_snapSum flexGroup0_ok
+  have hall : ∀ id p, flexFinal.flex.core.proposals.get? id = some p → GoodFor flexFinal.log id p.startHeight := by
+    intro id p hp
+    have hkeys : flexFinal.flex.core.proposals.map (·.1) = [1] := by decide
+    have hid : id = 1 := by
+      have := AMap.get?_some_mem hp
+      have : id ∈ flexFinal.flex.core.proposals.map (·.1) := List.mem_map.mpr ⟨_, this, rfl⟩
+      rw [hkeys] at this; simpa using this
+    subst hid
+    have hst : p.startHeight = 11 := by
+      have : (flexFinal.flex.core.proposals.get? 1).map (·.startHeight) = some 11 := by decide
+      rw [hp] at this; simpa using this
+    rw [hst]
+    intro pre post snd hlog hmem
+    have hlog' : flexFinal.log = [.groupWrite 5, .groupWrite 10, .proposed 1 "a", .voted 1 "b"] := by decide
+    have : Cw3Flex.Event.groupWrite 11 ∈ flexFinal.log := by rw [hlog]; exact List.mem_append_left _ hmem
+    rw [hlog'] at this
+    revert this; decide
+  have := (flex_status_total_guarded (m := C06Flex.Cex.inst) (s := C06Flex.Cex.flex0) (g := C06Flex.Cex.group0)
+    (t := C06Flex.Cex.token0) (bank := []) (self := "ms") (ga := "grp") (ta := "tok") (H0 := 5) (ext := C06Flex.Cex.noExt)
+    (fuel := 10) rfl h1 h2 h3 h4 flexOps (by decide) (by unfold C06Flex.Ordered; decide)).2 hall
+  intro blk cur limit
+  exact (this.2 blk cur limit).2
+
+/-- In the D3 history of C06 (group update and `Propose` in the same block 10) the guard fails for proposal 1:
+`groupWrite 10` precedes `proposed 1 a`. -/
+example : ¬ GoodFor C06Flex.Cex.final.log 1 10 := by
+  intro h
+  have hlog : C06Flex.Cex.final.log = [.groupWrite 5, .groupWrite 10, .proposed 1 "a", .voted 1 "b"] := by decide
+  exact h [.groupWrite 5, .groupWrite 10] [.voted 1 "b"] "a" hlog (by simp)
 
 end CwPlus.Props.C20Listings
